@@ -90,6 +90,8 @@ class ExcFlow:
                         out.extend(self.esc.get(g.qual, ()))
             elif tg.kind == "ext":
                 ent = spec.EXT.get(tg.name)
+                if ent and tg.name == "next" and len(node.args) == 2:
+                    ent = (ent[0], ())  # next(it, default) does not raise StopIteration
                 if ent:
                     for e in ent[1]:
                         out.append((e, ("ext", f.qual, node.lineno, tg.name)))
